@@ -24,6 +24,9 @@ mod logs;
 mod main_event_loop;
 mod storage;
 mod template;
+#[cfg(feature = "breard_r_acmed_verif")]
+#[path = "/verif/probe/probe.rs"]
+mod verif_probe;
 
 pub const APP_NAME: &str = "ACMEd";
 pub const APP_THREAD_NAME: &str = "acmed-runtime";
@@ -56,6 +59,10 @@ type AccountSync = Arc<RwLock<account::Account>>;
 type EndpointSync = Arc<RwLock<endpoint::Endpoint>>;
 
 fn main() {
+	#[cfg(feature = "breard_r_acmed_verif")]
+	if std::env::var_os("ACMED_VERIF_RUN").is_some() {
+		return verif_probe::run();
+	}
 	Builder::new_multi_thread()
 		.enable_all()
 		.thread_name(APP_THREAD_NAME)
